@@ -109,10 +109,13 @@ var longFamilies = []struct {
 	11: {"922337203685477580", '0', "??", "0789.", true},
 	12: {"?", '9', "?", "0189.e", true},
 	13: {"0X?", 'F', "?", "0178fFg", true},
+	14: {"'", 'a', "??", "a\xc3\xa9'\\", false}, // mostly unterminated strings ending in multi-byte or stray bytes
+	15: {"`", 'a', "??", "a\xc3\xa9`\n", false},
+	16: {"\"?", '\xa9', "?", "a\xc3\xa9\"", false}, // runs of continuation bytes
 }
 
 // LongFamilies is the number of families of H_C09long.
-const LongFamilies = 14
+const LongFamilies = 17
 
 func longSource(f, n int) string {
 	fam := longFamilies[f]
